@@ -428,7 +428,7 @@ func c17RS(c *fw.Ctx, fs fieldSpec, rf refdec.Field, u *fw.Unit) {
 		for i := range msg {
 			msg[i] = -7
 		}
-		in := msg[:len(data):len(data)+650]
+		in := msg[: len(data) : len(data)+650]
 		copy(in, data)
 		pv, _ := fw.Call(func() { out = enc.Encode(in, k) })
 		for i := len(data); i < len(msg); i++ {
